@@ -44,10 +44,17 @@ type Ctx struct {
 	// Prelude calls are re-executed at the start of every batch history (e.g. Config).
 	Prelude []Event
 	// Conc: stateless calls are remembered and executed again from several goroutines at once (ConcurrentReplay).
-	Conc     bool
-	pure     []pureCall
-	pureSeen int
-	prng     *rand.Rand
+	Conc bool
+	// DeferredOp: every history is executed a second time on a fresh object store without observing anything on the
+	// way ("noobs"); this op then observes the final state, which must equal the final state of the observed run
+	// (a value the library computes lazily on first read must not depend on WHEN it is first read).
+	DeferredOp string
+	defRuns    int
+	defMism    int
+	defFirst   map[string]interface{}
+	pure       []pureCall
+	pureSeen   int
+	prng       *rand.Rand
 }
 
 type pureCall struct {
@@ -588,7 +595,58 @@ func (c *Ctx) Run(calls []Event) []Event {
 		ev = append(ev, Do(h, a))
 	}
 	c.Hist(ev)
+	if c.DeferredOp != "" && len(ev) > 0 {
+		c.deferredRun(calls, ev)
+	}
 	return ev
+}
+
+func (c *Ctx) deferredRun(calls []Event, ev []Event) {
+	last, ok := ev[len(ev)-1]["all"]
+	if !ok || ev[len(ev)-1]["panic"] != nil {
+		return
+	}
+	h := &HState{Obj: map[string]interface{}{}}
+	var fin Event
+	p, _ := guard(func() {
+		for _, a := range calls {
+			Do(h, with(a, "noobs", true))
+		}
+		fin = Do(h, Event{"op": c.DeferredOp})
+	})
+	c.defRuns++
+	want, _ := json.Marshal(denil(last))
+	got := []byte("panic")
+	if !p && fin != nil {
+		got, _ = json.Marshal(denil(fin["all"]))
+	}
+	if string(want) != string(got) {
+		if c.defMism == 0 {
+			cut := func(b []byte) string {
+				if len(b) > 1500 {
+					return string(b[:1500]) + "..."
+				}
+				return string(b)
+			}
+			cj, _ := json.Marshal(calls)
+			c.defFirst = map[string]interface{}{"sequential": cut(want), "concurrent": cut(got) + " calls=" + cut(cj)}
+		}
+		c.defMism++
+	}
+}
+
+// DeferredCheck reports the deferred-observation runs (judged by TraceBase like the other replays: workers = -1).
+func (c *Ctx) DeferredCheck() {
+	if c.defRuns == 0 {
+		return
+	}
+	first := c.defFirst
+	if first == nil {
+		first = map[string]interface{}{"sequential": "", "concurrent": ""}
+	}
+	c.Flush()
+	c.Hist([]Event{{"op": "ConcurrentReplay", "mode": "histories executed again without intermediate observation", "calls": c.defRuns, "workers": -1,
+		"executions": c.defRuns, "skipped_budget": 0, "mismatches": c.defMism, "first": first}})
 }
 
 // with returns a copy of a with extra fields (the results).
